@@ -1512,7 +1512,7 @@ def load(path, extra):
     return tu
 
 
-def generate(path, fns, namespace, extra=(), fuel=2, fuels=None, externs=(), inmem=(), recursive_loops=False):
+def generate(path, fns, namespace, extra=(), fuel=2, fuels=None, externs=(), inmem=(), recursive_loops=False, optional=()):
     """Lean source text for the listed functions of one C file, in the order given (callees first)."""
     tu = load(path, list(extra))
     tu.inmem = set(inmem)
@@ -1524,7 +1524,15 @@ def generate(path, fns, namespace, extra=(), fuel=2, fuels=None, externs=(), inm
             raise Unsupported(f'function {fn} not found in {path}')
         f_ = Fn(tu, tu.fns[fn], (fuels or {}).get(fn, fuel), done, externs)
         f_.recursive_loops = recursive_loops
-        text, sig = f_.translate()
+        try:
+            text, sig = f_.translate()
+        except Unsupported as e:
+            if fn not in optional:
+                raise
+            # a function no tie theorem is stated about: its translation is informative only, a refusal does not break the unit
+            out.append(f'-- `{fn}` is outside the translated subset as written now: {e}')
+            out.append('')
+            continue
         done[fn] = sig
         out.append(text)
         out.append('')
